@@ -527,6 +527,20 @@ pub fn gen_c03(out: &mut Out, rng: &mut Rng, thorough: bool) {
         let codec = codecs[i % codecs.len()];
         monitor_line(out, &format!("stream {codec} {}", chunks_tok(&chunks)));
     }
+    // pure line noise (bytes that are never function codes) in large reads: the decoders must
+    // keep discarding, never accumulate
+    for (i, total) in [300usize, 3_000, 30_000, 80_000, 80_000].iter().enumerate() {
+        let codec = if i % 2 == 0 { "rtusrv" } else { "rtucli" };
+        let data: Vec<u8> = (0..*total).map(|_| *rng.pick(&[0x00u8, 0x80, 0x41, 0x48, 0x64, 0x6E])).collect();
+        let mut chunks = vec![];
+        let mut at = 0;
+        while at < data.len() {
+            let k = rng.range(50, 700).min(data.len() - at);
+            chunks.push(data[at..at + k].to_vec());
+            at += k;
+        }
+        monitor_line(out, &format!("stream {codec} {}", chunks_tok(&chunks)));
+    }
     // client calls fed arbitrary reply bytes, server connections fed arbitrary request bytes
     let n = if thorough { 20_000 } else { 2_000 };
     for i in 0..n {
